@@ -473,7 +473,7 @@ static var Thread_Val_Type(var self) {
 
 static void Thread_Mark(var self, var gc, void(*f)(var,void*)) {
   struct Thread* t = self;
-  mark(t->tls, gc, f);
+  if (self is current(Thread)) { mark(t->tls, gc, f); }
 }
 
 var Thread = Cello(Thread,
